@@ -122,6 +122,12 @@ def run(rep, tier, seed, model_ok=True, effort=1):
             fl["tag_num"] = fl["tag_num"] and r.random() < 0.2
             fl["pin_increments"] = False
             nd = d + dt.timedelta(days=r.choice([0, 1, 31, 400, -5, 3000]))
+            past_only = False
+            if not fl["pin_date"] and r.random() < 0.2:
+                # the bump date lies before the version's own date (clock set back, pre-dated version): the calendar parts stay, the build id moves
+                fl = dict(major=False, minor=False, patch=False, tag=None, tag_num=False, pin_increments=False, pin_date=False)
+                nd = d - dt.timedelta(days=r.choice([1, 5, 40, 100, 200]))
+                past_only = nd >= dt.date(2000, 1, 1)
             date_arg = None if fl["pin_date"] else nd.isoformat()
             args = ["test", s, pat] + c05.flag_args(fl, date_arg)
             setv = None
@@ -143,6 +149,16 @@ def run(rep, tier, seed, model_ok=True, effort=1):
                 if want is not None and want != s and (code != 0 or new != want):
                     rep.violation("--pin-date bump of a legacy version gives %r (exit %s), expected only the build id to move: %r" % (new, code, want),
                                   input=dict(args=args, new=new, want=want), **{"class": "v1-pin-date"})
+            if past_only and setv is None and any(x in pat for x in ("{pycalver}", "{build", "{bid}", "{BID}", "{B")):
+                rep.count("past-date-bumps")
+                import lexid
+                try:
+                    want = impl.v1version.format_version(v._replace(bid=lexid.next_id(v.bid)), pat)
+                except Exception:
+                    want = None
+                if want is not None and want != s and (code != 0 or new != want):
+                    rep.violation("bump of a legacy version on a date before its own date gives %r (exit %s), expected the calendar parts to stay and the build id to move: %r" % (new, code, want),
+                                  input=dict(args=args, new=new, want=want), **{"class": "v1-past-date"})
             if code == 0 and new:
                 if not (version.parse_version(new) > version.parse_version(s)):
                     rep.violation("legacy bump is not strictly greater", input=dict(args=args, new=new), **{"class": "v1-not-greater"})
@@ -155,6 +171,29 @@ def run(rep, tier, seed, model_ok=True, effort=1):
             exp = "(Exit0 %s %s)" % (cs(new), cs(pep if pep is not None else new)) if code == 0 and new is not None else "ExitErr"
             cli_items.append("(%s,%s,%s,%s,%s,%s)" % (cs(s), cs(pat), v2gen.cflags(fl), cdate, cos(setv), exp))
             cli_meta.append(dict(args=args, exit=code, new=new))
+    # corpus: the bump date lies before the version's own date, for parts that are compared only through derived fields (quarter without month)
+    import lexid
+    for pat, d_old, d_new in [("{year}q{quarter}.{build_no}", dt.date(2026, 11, 15), dt.date(2026, 2, 10)), ("{year}q{quarter}.{build_no}", dt.date(2026, 6, 30), dt.date(2026, 3, 31)),
+                              ("{year}.{month}.{dom}.{build_no}{release}", dt.date(2026, 3, 20), dt.date(2026, 3, 5)), ("{year}{build}{release}", dt.date(2027, 1, 1), dt.date(2026, 12, 31)),
+                              ("{pycalver}", dt.date(2026, 12, 1), dt.date(2026, 1, 15)), ("{year}.{doy}.{PATCH}", dt.date(2026, 12, 31), dt.date(2026, 1, 1))]:
+        ci = impl.v1version.cal_info(d_old)
+        v0 = impl.v1version.parse_version_info("v201701.0042-beta", "{pycalver}")._replace(**ci._asdict())
+        try:
+            old_s = impl.v1version.format_version(v0, pat)
+            want = impl.v1version.format_version(v0._replace(bid=lexid.next_id(v0.bid)), pat)
+        except Exception:
+            continue
+        args = ["test", old_s, pat, "--date", d_new.isoformat()]
+        code, out, exc = impl.run_cli(args)
+        new = impl.parse_new_version(out) if code == 0 else None
+        rep.case(("past-date-corpus", pat, str(d_old), str(d_new)), nontrivial=code == 0)
+        if want == old_s:
+            # no build part: nothing can move, the bump must be refused
+            if code == 0:
+                rep.violation("legacy bump on an earlier date announced %r although nothing may change" % new, input=dict(args=args, new=new), **{"class": "v1-past-date"})
+        elif code != 0 or new != want:
+            rep.violation("bump of a legacy version on a date before its own date gives %r (exit %s), expected the calendar parts to stay and the build id to move: %r" % (new, code, want),
+                          input=dict(args=args, new=new, want=want), **{"class": "v1-past-date"})
     # derived search patterns: a file that carries the PEP 440 form of the version under {pep440_version} / {pep440_pycalver},
     # for every version pattern the legacy engine maps ({pycalver}, {semver}, the four {year}[{month}]{build}{release} forms)
     derived_stream(rep, impl, r, (4 if tier == "quick" else 40) * effort)
